@@ -4,7 +4,7 @@ patch="$1"; shift
 cd /repo || exit 2
 if ! git diff --quiet; then echo "/repo has local changes"; exit 2; fi
 git apply "$patch" || { echo "patch does not apply"; exit 2; }
-trap 'git -C /repo checkout -- . ; git -C /repo clean -fdq' EXIT
+trap 'git -C /repo checkout -- . ; git -C /repo clean -fdq; /verif/.build/gotrans kernel /repo /verif/coq/gen/KernelGen.v' EXIT
 for p in "$@"; do
   start=$(date +%s)
   out=$(cd /verif && timeout 1500 ./check "$p" quick 2>/dev/null); rc=$?
